@@ -10,13 +10,15 @@ CLAIMED = {
              text='Clauses (i) pure calls and (ii) non-colliding calls on role-consistent inputs are postconditions of the real merge; every feasible path of the interpreted code for every shape pair (and sampled triples) up to the bound is discharged for ALL names, defaults and ALL call shapes. The bucket-consistency postcondition of the merger step, asserted at its boundary in every fold step, carries the n-ary clause. ' + B + '; not an unbounded proof.'),
  'C02': dict(units='embed, _embed (with _Merger inlined and asserted), sort_params, apply_params', text='soundness, exactness (with the stated exception), raise-only-when, bare-outer identity and the 3-ary fold law as postconditions / relational clauses of the real embed. ' + B),
  'C03': dict(units='mask, _mask, sort_params, apply_params, copy_sources', text='exact residual acceptance, raise-only-if-impossible, order independence, mask(sig,0), mask∘mask, hide_* flags only remove + weak soundness with explicit witness, as postconditions / relational clauses of the real mask; n and the masked names symbolic. ' + B),
- 'C04': dict(units='_signatures.forwards (+ embed, mask inlined)', text='forwards = embed∘mask (parameters, return annotation, provenance) as a relational clause over two interpreted runs, and the safety/exactness statement of the property directly as postcondition of forwards for every call shape, all seven flags/counts symbolic. The forger decorators (forwards_to_*, descriptor plumbing) are NOT yet under contract: algebra part only. ' + B),
+ 'C04': dict(units='_signatures.forwards (+ embed, mask inlined); _specifiers.forged_signature', text='forwards = embed∘mask (parameters, return annotation, provenance) as a relational clause over two interpreted runs, and the safety/exactness statement of the property directly as postcondition of forwards for every call shape, all seven flags/counts symbolic. Forger glue (tier P): forged_signature uses a non-None forger result as THE result and lets every exception of an explicit forger surface (no silent fallback to a signature the wrapper cannot honour). The decorators that BUILD the forger (forwards_to_*, _ForgerWrapper descriptor plumbing) are not under contract. ' + B),
  'C08': dict(units='merge, embed, mask, forwards, signatures.signature (plain and partial), copy_sources, default_sources, merge_depths, UpgradedParameter._upgrade', text='provenance well-formedness (one entry per parameter, non-empty, duplicate free, depth known, declared), exactness on consistently named inputs and the depth rules as postconditions of every algebra function and of plain retrieval. ' + B),
  'C09': dict(units='merge, _Merger, sort_params, apply_params, mask, embed', text='exactness and raise-only-if-no-common-call for name-aligned pairs; identities (mask(sig,0), bare-outer embed); bucket consistency for the fold. ' + B),
  'C10': dict(units='_concile_meta (contract used as summary), merge, embed, mask, forwards, partial retrieval', text='optional-only-if-all, common default or None, agreed annotation, kind only restricted, positional order kept, outer before inner, outer defaults dropped only before a required inner positional, partial keywords become keyword-only with the bound value: postconditions over ghost stands_for / origin fields that travel with replace(). ' + B),
  'C11': dict(units='UpgradedAnnotation.upgrade, _PostponedAnnotation/_PreEvaluatedAnnotation.source_value (interpreted), UpgradedParameter._upgrade, replace, merge/embed/mask/forwards', text='source_value() of every upgraded annotation of a retrieved signature equals the object the annotation denotes in the defining function globals (eval modelled as the uninterpreted evalin(raw, f)); the upgraded annotation of every combined parameter denotes its annotation. ' + B),
+ 'C14': dict(units='UpgradedParameter.__eq__/replace, UpgradedSignature.__eq__/replace/__init__, the two class objects (__hash__, inherited str/bind), plain retrieval',
+             text='== against every kind of operand (itself, upgraded twin, plain inspect object with the same or with symbolic data, None, foreign object) returns True/False/NotImplemented without raising, is reflexive, equals the plain twin, implies equality of the inherited hash basis; the classes keep the inherited __hash__, __str__, bind, bind_partial; replace() keeps type, provenance and upgraded annotations unless overridden; __init__ stores exactly the inherited state. Parameter-level obligations are tier P (loop-free, all fields symbolic, all kinds); signature-level ones ' + B),
  'C15': dict(units='merge, embed, mask, forwards', text='only ValueError escapes (IncompatibleSignatures on role-consistent inputs), results are valid upgraded signatures with +depths - on every path, exceptional ones included. ' + B),
- 'C16': dict(units='merge, embed, mask, forwards, sort_params, apply_params', text='frame obligations on the interpreted heap: no write to any object reachable from an input on any path (normal or exceptional), result provenance map/lists not shared with inputs. Retrieval part (cleanup_functools_wrapper, as_forged) not yet under contract. ' + B),
+ 'C16': dict(units='merge, embed, mask, forwards, sort_params, apply_params; autoforwards_function, cleanup_functools_wrapper.__enter__/__exit__, forged_signature (get_introspectable, iter_call, autoforwards, autoforwards_method inlined; autoforwards_ast summarised by its contract), _AsForged.__get__', text='frame obligations on the interpreted heap: no write to any object reachable from an input on any path (normal or exceptional), result provenance map/lists not shared with inputs (tier B). Retrieval (tier P, symbolic object with per-attribute instance-dict/type presence, every external call may raise an exception of a solver-chosen class): autoforwards_function/cleanup_functools_wrapper and forged_signature leave the instance dict of every inspected object as it was on EVERY exit; _AsForged.__get__ leaves its recursion guard as it was. ' + B),
  'C19': dict(units='signatures.signature (partial branch), _mask in partial mode, set_default_sources, upgrade path', text='exactness against the def-signature for every call shape with |args| and the bound keyword names/values symbolic, keyword-only conversion with bound default, provenance and depths. Discovery through partials not yet under contract. ' + B),
 }
 NA = {
